@@ -23,6 +23,7 @@ import (
 	"sync"
 	"sync/atomic"
 	"testing"
+	"testing/synctest"
 	"time"
 
 	"bazil.org/fuse"
@@ -162,6 +163,64 @@ func (e *env) racingRead(m *rmodel) bool {
 		return false
 	}
 	return true
+}
+
+// cancelWhileLoopBusy: a new reader's first request reaches the torrent while its loop is busy with something else
+// (parked answering a statistics query), and the reader's context is cancelled before the loop gets to it.  The
+// Read fails, and the torrent goes on serving everybody else: the loop gets past the request of the consumer
+// that left.
+func (e *env) cancelWhileLoopBusy(rng *rand.Rand) bool {
+	sw := e.sw
+	e.evict(true, rng)
+	off, ln := randWindow(rng, e.g)
+	if ln == 0 {
+		return true
+	}
+	ctx, cancel := context.WithCancel(context.Background())
+	defer cancel()
+	r := e.tr.T.NewReader(ctx, off, ln)
+	defer runtime.SetFinalizer(r, nil)
+	defer r.Close()
+	release := e.tr.ParkLoop()
+	if release == nil {
+		return true
+	}
+	type rres struct {
+		n   int
+		err error
+	}
+	done := make(chan rres, 1)
+	go func() {
+		n, err := r.Read(make([]byte, 1000))
+		done <- rres{n, err}
+	}()
+	synctest.Wait()
+	queued := len(e.tr.T.Event) > 0
+	cancel()
+	synctest.Wait()
+	if rng.IntN(2) == 0 {
+		time.Sleep(2 * time.Second)
+	}
+	release()
+	sw.Act("a reader at [%d,+%d) is cancelled while its first request waits behind a busy loop (queued: %v)", off, ln, queued)
+	tm := time.NewTimer(promptBound)
+	select {
+	case res := <-done:
+		tm.Stop()
+		if res.err == nil && res.n == 0 {
+			sw.Viol("C02", "prompt-failure", "cancelled-read-returns-nothing", "Read of a cancelled reader returned (0, nil)")
+			return false
+		}
+	case <-tm.C:
+		sw.Viol("C02", "prompt-failure", "blocked-read-survives-cancel request-queued", fmt.Sprintf("a Read whose context was cancelled while its request was queued is still blocked %v (virtual) later", promptBound))
+		return false
+	}
+	if queued {
+		e.stats["reads_cancelled_while_request_queued"]++
+	}
+	sw.Cut()
+	// the torrent still serves the others
+	return e.tr.LoopAlive("C02", "after-reader-cancelled-while-request-queued")
 }
 
 // awaitHashing lets virtual time pass (no reads) until some piece enters hashing, at most two seconds:
@@ -548,6 +607,10 @@ func history(t *testing.T, c *vk.C, rng *rand.Rand, i int) map[string]int {
 				if !e.racingRead(m) {
 					return
 				}
+			case x < 67:
+				if !e.cancelWhileLoopBusy(rng) {
+					return
+				}
 			case x < 72:
 				e.evict(rng.IntN(2) == 0, rng)
 				if e.slowHash && rng.IntN(2) == 0 {
@@ -822,6 +885,9 @@ func frontends(t *testing.T, r *vk.Run) {
 			}
 			e.evict(true, rng)
 			fuseInterrupt(e, rng, multi, path, flen)
+			if !sw.C.Violated() {
+				fuseStraddle(e, rng, multi, path, foff, flen)
+			}
 		})
 		for k, v := range st {
 			c.Count(k, int64(v))
@@ -960,6 +1026,102 @@ func httpRange(e *env, rng *rand.Rand, url string, foff, flen int64) bool {
 		e.stats["http_multipart"]++
 	}
 	return true
+}
+
+// fuseStraddle: one FUSE read begins in data that is there and runs into a piece that is not (and cannot come:
+// no seed is left).  It blocks; then it is interrupted, or the torrent is deleted.  A reply without an error
+// tells the kernel "this is all there is" (a short read is the end of the file: the rest is zero-filled and
+// cached), so the read must fail; it must not succeed with the first part.
+func fuseStraddle(e *env, rng *rand.Rand, multi bool, path []string, foff, flen int64) {
+	sw := e.sw
+	pl := int64(e.g.PieceLen)
+	const half = 2048
+	// a piece boundary inside the file with room on both sides
+	var bnds []int64
+	for b := (foff/pl + 1) * pl; b+half <= foff+flen && b+half <= e.g.Length; b += pl {
+		if b-half >= foff {
+			bnds = append(bnds, b)
+		}
+	}
+	if len(bnds) == 0 {
+		return
+	}
+	b := bnds[rng.IntN(len(bnds))]
+	e.tr.Prefill([]int{int(b/pl) - 1})
+	sw.Cut()
+	var node fs.Node = storfuse.VerifRoot()
+	comps := path
+	if multi {
+		comps = append([]string{e.g.Name}, path...)
+	}
+	for _, cpt := range comps {
+		lk, ok := node.(fs.NodeStringLookuper)
+		if !ok {
+			return
+		}
+		nn, err := lk.Lookup(context.Background(), cpt)
+		if err != nil {
+			return
+		}
+		node = nn
+	}
+	op, ok := node.(fs.NodeOpener)
+	if !ok {
+		return
+	}
+	h, err := op.Open(context.Background(), &fuse.OpenRequest{Flags: fuse.OpenReadOnly}, &fuse.OpenResponse{})
+	if err != nil {
+		return
+	}
+	hr := h.(fs.HandleReader)
+	ctx, cancel := context.WithCancel(context.Background())
+	defer cancel()
+	var mu sync.Mutex
+	done, n := false, 0
+	var rerr error
+	off := b - half - foff
+	go func() {
+		resp := &fuse.ReadResponse{Data: make([]byte, 0, 2*half)}
+		err := hr.Read(ctx, &fuse.ReadRequest{Offset: off, Size: 2 * half}, resp)
+		mu.Lock()
+		done, n, rerr = true, len(resp.Data), err
+		mu.Unlock()
+	}()
+	isDone := func() bool { mu.Lock(); defer mu.Unlock(); return done }
+	sw.Cut()
+	time.Sleep(2 * time.Second)
+	sw.Cut()
+	if isDone() {
+		return // the second piece was there after all
+	}
+	how := "interrupted"
+	if rng.IntN(2) == 0 {
+		how = "deleted"
+		e.tr.Kill()
+	} else {
+		cancel()
+	}
+	sw.Act("FUSE read of %d bytes at file offset %d (the first %d are there, the piece after them is not) is %s", 2*half, off, half, how)
+	for waited := time.Duration(0); !isDone() && waited < promptBound; waited += time.Second {
+		sw.Cut()
+		time.Sleep(time.Second)
+	}
+	sw.Cut()
+	if !isDone() {
+		sw.Viol("C02", "prompt-failure", "fuse-straddling-read-survives-"+how, fmt.Sprintf("a FUSE read blocked in the second of two pieces is still blocked %v (virtual) after it was %s", promptBound, how))
+		return
+	}
+	mu.Lock()
+	defer mu.Unlock()
+	if rerr == nil && n < 2*half {
+		sw.Viol("C02", "prompt-failure", "fuse-short-read-reported-as-success "+how, fmt.Sprintf("a FUSE read of %d bytes in the middle of the file, %s while it waited for its second piece, succeeded with %d bytes: to the kernel a short read is the end of the file", 2*half, how, n))
+		return
+	}
+	if rerr == nil {
+		sw.Viol("C02", "prompt-failure", "fuse-read-completes-without-data "+how, fmt.Sprintf("a FUSE read returned all %d bytes although the piece holding the second half was missing and no seed was left", n))
+		return
+	}
+	e.stats["fuse_straddling_reads_failed:"+how]++
 }
 
 // fuseInterrupt: two (or three) reads are blocked on one open file (the data is gone and no seed is left);
